@@ -70,6 +70,10 @@ class Res:
 
 
 def parse_real(line):
+    if " !!" in line or line.startswith("!!"):
+        # the child died: what it had printed may end in the middle of a token (stdio flushes by blocks)
+        ws = line.split(" ")
+        line = " ".join(w for w in ws if w.startswith("!") or (w.count(":") == 4 and re.match(r"^\d+:[0-9a-f-]*:[^:]*:\d+\.\d+:[01]$", w)))
     r = lexgen.parse_line(line)
     o = Res()
     o.raw = line
@@ -1226,16 +1230,36 @@ def run(ck):
 
 META = {
     "category": "proof",
-    "text": ("Lean 4 theorems about a transliteration of pp.c's macro machinery (Model/PP.lean) and a reference "
-             "written from C11 6.10.3 as Prosser's hide-set algorithm (Spec/MacroRef.lean); tied to /repo on every "
-             "run by dumping the real preprocessor's next() stream for generated macro sets and comparing it with "
-             "the model and the reference, and by IL(P) = IL(gcc -E -P P) on generated valid programs."),
+    "text": ("Lean 4 theorems (no bound on sizes) about a transliteration of pp.c's macro machinery (Model/PP.lean: "
+             "define, undef, macroequal, the context stack with lazy parameter substitution, expand, expandfunc, "
+             "stringize, peekparen, directive, next) and a reference written from C11 6.10.3 as a hide-set algorithm "
+             "(Spec/MacroRef.lean): for every set of object-like macros, any mutual or self reference, the model's "
+             "token stream IS the reference's (object_like_correct, with the hide-flag invariant hide_iff_active); "
+             "every accepted definition is well formed (##, misplaced __VA_ARGS__, duplicate parameter, # without "
+             "parameter are rejected); macroequal decides identity of definitions up to white space (6.10.3p2 full "
+             "strength is refuted: known finding macroequal-ignores-space); the string built for #param is the "
+             "6.10.3.2p2 spelling; the argument loops split at top-level commas with the variadic tail joined and "
+             "stop at the matching parenthesis; a surplus argument is rejected; painted identifiers are never "
+             "expanded; more fuel never changes a completed result.  The full model=reference statement for "
+             "function-like macros is stated and refuted by the recorded known findings.  Tied to /repo on every "
+             "run: the real preprocessor's next() stream (all of /repo linked, one child per input, ASan+UBSan on a "
+             "share) for generated macro sets inside free token sequences and valid C programs is compared with the "
+             "model (kind, spelling, space flag, diagnostic class) and with the reference; IL(P) = IL(gcc -E -P P) "
+             "byte for byte with the freshly built cproc-qbe; disagreements are shrunk by delta debugging."),
     "design_ref": "DESIGN.md section 4, C12",
     "note": ("Trusted: Lean kernel + propext/Classical.choice/Quot.sound; the hand-written model (tied by the "
-             "differential run); the reading of 6.10.3 in Spec/MacroRef.lean (cross-checked against gcc and clang); "
-             "the scanner model of C13 for tokenisation. Function-like equivalence model = reference is proved for a "
-             "stated sub-class only; the recorded known findings are the excluded classes."),
-    "technique": "Lean 4 proof (invariants of the context stack, simulation against the hide-set algorithm for "
-                 "object-like macro sets, list lemmas for argument splitting and stringification) + three-way "
-                 "differential correspondence with shrinking",
+             "differential run); the reading of 6.10.3 in Spec/MacroRef.lean (validated against gcc and clang on "
+             "every run; for a function-like name that is first met without '(' inside an argument and invoked "
+             "later, the reference follows the text of 6.10.3.4p2 and both compilers rather than Prosser's "
+             "persistent hide sets, and reports when the two readings differ); the scanner model of C13 for "
+             "tokenisation; the macro table as a dictionary (C16/C20).  Not proved: model = reference for "
+             "function-like macros in general (checked by the run; the excluded classes are the known findings "
+             "stringize-nested-call, empty-expansion-space, depth-count-confusion, pragma-funclike-lookahead, "
+             "directive-between-name-and-paren), the link between the pure argument loop `collect` and "
+             "expandfunc inside exec, termination without fuel.  Out of domain: directives inside the arguments "
+             "of an invocation (undefined, 6.10.3p11) and the 6.10.3.4p4 nesting case (unspecified)."),
+    "technique": "Lean 4 proof (simulation of the context stack against the hide-set algorithm, invariants, "
+                 "fun_induction on the definition loops, grind for monotonicity of the open-recursive bodies, kernel "
+                 "evaluation of concrete witnesses) + three-way differential correspondence with delta-debugging "
+                 "shrinker + K-B byte comparison of IL",
 }
